@@ -29,35 +29,25 @@ Theorem C06_destroy_nothing_behind : forall s e force allow keep tfail s' u x,
 Proof. exact destroy_nothing_behind. Qed.
 Print Assumptions C06_destroy_nothing_behind.
 
-(* --- failed creation.  Full statement: a creation that returned an error leaves the environment
-       unlisted, no task with it as parent, and every task launched for it either sent KILL or - never
-       having become owned - still in the roster, unowned, for the next cleanup.  It is FALSE for the
-       unchanged code: acquireTasks retries a deployment that failed up to three times and launches the
-       deployable roles again in every attempt, but keeps only the tasks of the last attempt; those of
-       the earlier attempts run on their agents, are in no roster and can never be selected for a KILL
-       (finding C06-d; witness replayed on the implementation as corpus case partial-deployment). *)
-Theorem C06_retried_deployment_leak_refuted : ~ failed_creation_leaves_nothing.
-Proof. exact failed_creation_leaves_nothing_refuted. Qed.
-Print Assumptions C06_retried_deployment_leak_refuted.
+(* --- failed creation, full statement: a creation that returned an error - at whatever stage: template
+       missing / in error, host without detector, detector busy, undeployable role, PARTIAL deployment
+       failure retried three times, launch failure, deployment timeout, CONFIGURE refused by a critical
+       task - leaves the environment unlisted, no task with it as parent, and every task launched for it
+       either sent KILL or - never having become owned - still in the roster, unowned, for the next
+       cleanup (next theorem but one).  For the retried deployment this rests on gen/Gen_AcqRoster.v
+       (regenerated from acquireTasks on every run): the tasks of every attempt are written to the roster. *)
+Theorem C06_failed_creation_leaves_nothing : failed_creation_leaves_nothing.
+Proof. exact failed_creation_leaves_nothing_holds. Qed.
+Print Assumptions C06_failed_creation_leaves_nothing.
 
-(* --- what holds instead: unless the deployment was retried after a PARTIAL launch (oracle c_fail = 6),
-       a creation that returned an error - at whatever stage: template missing / in error, host without
-       detector, detector busy, undeployable role, launch failure, deployment timeout, CONFIGURE refused
-       by a critical task - leaves the environment unlisted, no task with it as parent, and every task
-       launched for it (running, still staging or dead) sent KILL. *)
-Theorem C06_failed_creation_partial : forall s e c s' u,
-  reachable s -> wf_op s (OCreate e c) = true -> c_fail c <> 6 ->
-  step s (OCreate e c) = (s', u) -> o_rc u = 1 ->
-  nothing_left e s' /\ launched_killed e c u.
-Proof. exact failed_creation_partial. Qed.
-Print Assumptions C06_failed_creation_partial.
-
-Theorem C06_failed_overlapped_creation_partial : forall s e c s' u,
+(* --- the same for the second half of an overlapped creation, where no deployment retry is involved:
+       every launched task (running, still staging or dead) is sent KILL, no call is left pending. *)
+Theorem C06_failed_overlapped_creation_leaves_nothing : forall s e c s' u,
   reachable s -> assocN e (s_snaps s) <> None -> c_fail c <> 6 ->
   step s (OFinish e c) = (s', u) -> o_rc u = 1 ->
   (nothing_left e s' /\ launched_killed e c u) /\ o_pend u = 0.
 Proof. exact finish_nothing_behind. Qed.
-Print Assumptions C06_failed_overlapped_creation_partial.
+Print Assumptions C06_failed_overlapped_creation_leaves_nothing.
 
 (* --- "its pending hook calls have been cancelled", failure tail of a creation: no call of the
        environment is left pending and uncancelled - also those started by the leave_<state> hooks that
@@ -65,16 +55,12 @@ Print Assumptions C06_failed_overlapped_creation_partial.
        on gen/Gen_TdOrder.v (the source order of TeardownEnvironment's steps, regenerated on every run):
        cancelCallsPendingAwait comes after the last point where a pending call can be started. *)
 Theorem C06_failed_creation_cancels_calls : forall s e c s' u,
-  reachable s -> wf_op s (OCreate e c) = true -> c_fail c <> 6 ->
-  step s (OCreate e c) = (s', u) -> o_rc u = 1 -> o_pend u = 0.
+  reachable s -> wf_op s (OCreate e c) = true -> step s (OCreate e c) = (s', u) -> o_rc u = 1 -> o_pend u = 0.
 Proof. exact failed_creation_cancels_calls. Qed.
 Print Assumptions C06_failed_creation_cancels_calls.
 
 (* --- "tasks that never became owned stay unowned and fall to the next cleanup": whatever unlocked task
-       is in the roster, the next Cleanup sends it KILL.  (That the tasks of the LAST attempt of a failed
-       deployment are in the roster at all is the regression example C06_partial_deployment_regression
-       below; it rests on gen/Gen_AcqRoster.v: acquireTasks writes the launched tasks to the roster
-       whether or not the deployment succeeded.) *)
+       is in the roster, the next Cleanup sends it KILL.  *)
 Theorem C06_unowned_falls_to_next_cleanup : forall s t,
   In t (s_roster s) -> is_locked t = false -> In (t_id t) (o_kills (snd (step s OCleanup))).
 Proof. exact unowned_falls_to_cleanup. Qed.
@@ -118,8 +104,9 @@ Proof. vm_compute. repeat split; reflexivity. Qed.
 Example C06_partial_deployment_regression :
   let '(s', u) := step st0 (OCreate 0 pd_spec) in
   o_rc u = 1 /\ length (o_launch u) = 6%nat /\ o_kills u = [] /\
-  map t_id (s_roster s') = [(0, 4); (0, 5)] /\ forallb (fun t => negb (is_locked t)) (s_roster s') = true /\
-  o_kills (snd (step s' OCleanup)) = [(0, 4); (0, 5)].
+  map t_id (s_roster s') = [(0, 0); (0, 1); (0, 2); (0, 3); (0, 4); (0, 5)] /\
+  forallb (fun t => negb (is_locked t)) (s_roster s') = true /\
+  length (o_kills (snd (step s' OCleanup))) = 6%nat.
 Proof. vm_compute. repeat split; reflexivity. Qed.
 
 Example C06_failed_executor_regression :
